@@ -603,3 +603,135 @@ def wide_selects():
         out.append((f"wide:only{om}", wide_select(2, tuple(i for i in range(8) if i != om), 0)))
     out.append(("wide:omit_real_aggr", wide_select(2, (1, 6), 2)))
     return out
+
+
+# ------------------------------------------------------------------ contradictory structures USED in expressions
+def _uses(attr_decl, expr_of, ent="user"):
+    """the same reference in every expression context: DERIVE, WHERE, function body, rule"""
+    e = expr_of
+    return (f"ENTITY {ent};\n  {attr_decl};\n  n : INTEGER;\nDERIVE\n  d1 : STRING := {e};\n  d2 : LOGICAL := EXISTS({e});\n"
+            f"WHERE\n  wr1 : {e} <> '';\n  wr2 : SIZEOF(QUERY(q <* [{e}] | q = {e})) >= 0;\n  wr3 : f_use({e}) > n;\nEND_ENTITY;\n"
+            f"FUNCTION f_use(p : GENERIC) : INTEGER;\n  LOCAL\n    r : INTEGER := 0;\n  END_LOCAL;\n  RETURN (r);\nEND_FUNCTION;\n")
+
+
+def _struct_select_cycle(first_entity=True, length=2):
+    sels = [f"sel{i}" for i in range(length)]
+    body = "ENTITY person;\n  name : STRING;\nEND_ENTITY;\nENTITY employee SUBTYPE OF (person);\n  badge : INTEGER;\nEND_ENTITY;\n"
+    for i, s in enumerate(sels):
+        nxt = sels[(i + 1) % length]
+        mem = (["employee", nxt] if first_entity else [nxt, "employee"]) if i == 0 else [nxt]
+        body += f"TYPE {s} = SELECT ({', '.join(mem)});\nEND_TYPE;\n"
+    return body, "sel0"
+
+
+def contradictions_with_uses():
+    """(tag, data): every cyclic / contradictory structure together with expressions that resolve a qualifier, an index,
+    a call argument or a QUERY through it"""
+    out = []
+    structs = {}
+    for fe in (True, False):
+        for ln in (1, 2, 3):
+            b, t = _struct_select_cycle(fe, ln)
+            structs[f"selcycle{ln}{'_entfirst' if fe else '_entlast'}"] = (b, t)
+    structs["select_diamond_valid"] = ("ENTITY person;\n  name : STRING;\nEND_ENTITY;\nENTITY employee SUBTYPE OF (person);\n  badge : INTEGER;\nEND_ENTITY;\n"
+                                       "TYPE sa = SELECT (employee);\nEND_TYPE;\nTYPE sb = SELECT (employee, sa);\nEND_TYPE;\nTYPE sel0 = SELECT (sa, sb);\nEND_TYPE;\n", "sel0")
+    structs["subtype_cycle"] = ("ENTITY person SUBTYPE OF (employee);\n  name : STRING;\nEND_ENTITY;\nENTITY employee SUBTYPE OF (person);\n  badge : INTEGER;\nEND_ENTITY;\n", "employee")
+    structs["subtype_cycle_leaf"] = ("ENTITY person SUBTYPE OF (boss);\n  name : STRING;\nEND_ENTITY;\nENTITY boss SUBTYPE OF (person);\n  lvl : INTEGER;\nEND_ENTITY;\n"
+                                     "ENTITY employee SUBTYPE OF (boss);\n  badge : INTEGER;\nEND_ENTITY;\n", "employee")
+    structs["type_cycle"] = ("ENTITY person;\n  name : STRING;\nEND_ENTITY;\nENTITY employee SUBTYPE OF (person);\nEND_ENTITY;\nTYPE t1 = t2;\nEND_TYPE;\nTYPE t2 = t1;\nEND_TYPE;\n", "t1")
+    structs["aggregate_of_self"] = ("ENTITY person;\n  name : STRING;\nEND_ENTITY;\nENTITY employee SUBTYPE OF (person);\nEND_ENTITY;\nTYPE t1 = LIST OF t1;\nEND_TYPE;\n", "t1")
+    structs["undefined_type"] = ("ENTITY person;\n  name : STRING;\nEND_ENTITY;\nENTITY employee SUBTYPE OF (person);\nEND_ENTITY;\n", "nosuch_type")
+    structs["duplicate_entity"] = ("ENTITY person;\n  name : STRING;\nEND_ENTITY;\nENTITY employee SUBTYPE OF (person);\nEND_ENTITY;\nENTITY employee;\n  name : REAL;\nEND_ENTITY;\n", "employee")
+    structs["select_of_undefined"] = ("ENTITY person;\n  name : STRING;\nEND_ENTITY;\nENTITY employee SUBTYPE OF (person);\nEND_ENTITY;\nTYPE sel0 = SELECT (employee, nosuch);\nEND_TYPE;\n", "sel0")
+    exprs = {"dot": "v.name", "group_dot": "v\\person.name", "group": "v\\person", "index": "v[1]", "index_dot": "v[1].name",
+             "dot_undefined": "v.nosuch_attr", "group_undefined": "v\\nosuch_ent.name", "self_dot": "SELF.v.name",
+             "call": "f_use(v)", "nested": "v\\employee\\person.name"}
+    for sk, (body, ty) in structs.items():
+        for ek, ex in exprs.items():
+            decl = f"v : LIST OF {ty}" if ek.startswith("index") else f"v : {ty}"
+            out.append((f"uses:{sk}:{ek}", _sch(body + _uses(decl, ex))))
+    return out
+
+
+# ------------------------------------------------------------------ long expressions through the generators' string path
+def long_expr(kind, n, dotted=True):
+    """valid schema with ONE expression whose pretty-printed text is about n characters"""
+    lit = (("abcdefghi." * (n // 10 + 1))[:n]) if dotted else "y" * n
+    if kind == "where":
+        return _sch(f"ENTITY part;\n  description : STRING;\nWHERE\n  wr1 : description <> '{lit}';\nEND_ENTITY;\n")
+    if kind == "derive":
+        return _sch(f"ENTITY part;\n  description : STRING;\nDERIVE\n  d : STRING := '{lit}';\nEND_ENTITY;\n")
+    if kind == "constant":
+        return _sch(f"CONSTANT\n  c : STRING := '{lit}';\nEND_CONSTANT;\nENTITY part;\n  description : STRING;\nWHERE\n  wr1 : description <> c;\nEND_ENTITY;\n")
+    if kind == "sum":          # many short operands instead of one literal
+        k = max(1, n // 8)
+        return _sch("ENTITY part;\n  x : INTEGER;\nWHERE\n  wr1 : " + " + ".join(["x"] * k + ["1"]) + " > 0;\nEND_ENTITY;\n")
+    if kind == "rule":
+        return _sch(f"ENTITY part;\n  description : STRING;\nEND_ENTITY;\nRULE r FOR (part);\nWHERE\n  wr1 : SIZEOF(QUERY(p <* part | p.description = '{lit}')) = 0;\nEND_RULE;\n")
+    if kind == "function":
+        return _sch(f"FUNCTION f(s : STRING) : LOGICAL;\n  RETURN (s = '{lit}');\nEND_FUNCTION;\nENTITY part;\n  description : STRING;\nWHERE\n  wr1 : f(description);\nEND_ENTITY;\n")
+    if kind == "subtype_expr":  # SUPERTYPE OF expression text
+        k = max(2, n // 12)
+        subs = [f"s{i:06d}" for i in range(k)]
+        return _sch("ENTITY sup SUPERTYPE OF (ONEOF (" + ", ".join(subs) + "));\nEND_ENTITY;\n" +
+                    "".join(f"ENTITY {s} SUBTYPE OF (sup);\nEND_ENTITY;\n" for s in subs))
+    raise ValueError(kind)
+
+
+LONG_EXPR_KINDS = ["where", "derive", "constant", "sum", "rule", "function", "subtype_expr"]
+
+
+def escape_heavy(kind, n):
+    """string literals full of characters the generators escape when they copy them into C++ / Python source"""
+    ch = {"backslash": "\\", "quote": "''", "dquote": '"', "percent": "%", "newline_concat": "' + '", "question": "??/"}[kind]
+    lit = ch * n
+    return _sch(f"CONSTANT\n  c : STRING := '{lit}';\nEND_CONSTANT;\n"
+                f"ENTITY part;\n  description : STRING;\nDERIVE\n  d : STRING := '{lit}';\nWHERE\n  wr1 : description <> '{lit}';\nEND_ENTITY;\n")
+
+
+ESCAPE_KINDS = ["backslash", "quote", "dquote", "percent", "newline_concat", "question"]
+for _k in ESCAPE_KINDS:
+    FAMILIES["escape_" + _k] = (lambda k: (lambda n: escape_heavy(k, n)))(_k)
+for _k in LONG_EXPR_KINDS:
+    FAMILIES["longexpr_" + _k] = (lambda k: (lambda n: long_expr(k, n)))(_k)
+
+
+def include_chain(n, nested=False):
+    """main file with n successful INCLUDE directives (nested: each included file includes the next); returns {name: bytes}"""
+    files = {}
+    if nested:
+        for i in range(n):
+            files[f"inc{i}.exp"] = ((f"INCLUDE 'inc{i + 1}.exp';\n" if i + 1 < n else "") + f"SCHEMA si{i};\nENTITY a{i};\nEND_ENTITY;\nEND_SCHEMA;\n").encode()
+        main = ("INCLUDE 'inc0.exp';\n" if n else "") + "SCHEMA s;\nENTITY a;\nEND_ENTITY;\nEND_SCHEMA;\n"
+    else:
+        for i in range(n):
+            files[f"inc{i}.exp"] = f"SCHEMA si{i};\nENTITY a{i};\nEND_ENTITY;\nEND_SCHEMA;\n".encode()
+        main = "".join(f"INCLUDE 'inc{i}.exp';\n" for i in range(n)) + "SCHEMA s;\nENTITY a;\nEND_ENTITY;\nEND_SCHEMA;\n"
+    files["in.exp"] = main.encode()
+    return files
+
+
+def alias_statements():
+    """(tag, data): ALIAS ... END_ALIAS in the places a statement may stand"""
+    fn = lambda body, params="x : INTEGER": _sch(f"ENTITY pt;\n  c : LIST [3:3] OF REAL;\n  nm : STRING;\nEND_ENTITY;\n"
+                                                  f"FUNCTION f({params}) : REAL;\n  LOCAL\n    r : REAL := 0.0;\n    l : LIST OF REAL := [1.0, 2.0];\n  END_LOCAL;\n{body}  RETURN (r);\nEND_FUNCTION;\n")
+    return [
+        ("alias:simple", fn("  ALIAS y FOR x;\n    r := y;\n  END_ALIAS;\n")),
+        ("alias:attribute", fn("  ALIAS y FOR p.c;\n    r := y[1];\n  END_ALIAS;\n", "p : pt")),
+        ("alias:index", fn("  ALIAS y FOR l[1];\n    y := 2.0;\n    r := y;\n  END_ALIAS;\n")),
+        ("alias:nested", fn("  ALIAS y FOR p.c;\n    ALIAS z FOR y[2];\n      r := z;\n    END_ALIAS;\n  END_ALIAS;\n", "p : pt")),
+        ("alias:index_then_attribute", fn("  ALIAS z FOR q[1];\n    r := z.c[1];\n  END_ALIAS;\n", "q : LIST OF pt")),
+        ("alias:attribute_of_alias", fn("  ALIAS z FOR p;\n    r := z.c[2];\n  END_ALIAS;\n", "p : pt")),
+        ("alias:group_of_alias", fn("  ALIAS z FOR q[1];\n    r := z\\pt.c[2];\n  END_ALIAS;\n", "q : LIST OF pt")),
+        ("alias:in_if", fn("  IF x > 0 THEN\n    ALIAS y FOR x;\n      r := y;\n    END_ALIAS;\n  END_IF;\n")),
+        ("alias:in_repeat", fn("  REPEAT i := 1 TO 2;\n    ALIAS y FOR l[i];\n      r := r + y;\n    END_ALIAS;\n  END_REPEAT;\n")),
+        ("alias:empty_body", fn("  ALIAS y FOR x;\n    ;\n  END_ALIAS;\n")),
+        ("alias:undefined_target", fn("  ALIAS y FOR nosuch;\n    r := y;\n  END_ALIAS;\n")),
+        ("alias:shadow", fn("  ALIAS x FOR x;\n    r := x;\n  END_ALIAS;\n")),
+        ("alias:in_procedure", _sch("PROCEDURE pr(VAR x : INTEGER);\n  ALIAS y FOR x;\n    y := y + 1;\n  END_ALIAS;\nEND_PROCEDURE;\n")),
+        ("alias:in_rule", _sch("ENTITY pt;\n  n : INTEGER;\nEND_ENTITY;\nRULE r FOR (pt);\n  LOCAL\n    k : INTEGER := 0;\n  END_LOCAL;\n  ALIAS y FOR k;\n    y := 1;\n  END_ALIAS;\nWHERE\n  wr1 : k >= 0;\nEND_RULE;\n")),
+    ]
+
+
+def multi_schema(n):
+    return "".join(f"SCHEMA m{i};\nENTITY e{i};\n  a : INTEGER;\nEND_ENTITY;\nEND_SCHEMA;\n" for i in range(n)).encode()
